@@ -76,7 +76,7 @@ using Payload = void;
 
 struct ScriptRng {
 	vf::IHarness** cur;
-	float next() noexcept { return (*cur)->nextRandom(); }
+	float next() noexcept { vf::HarnessScope hs; return (*cur)->nextRandom(); }
 };
 
 using Cfg0 = hfsm2::Config::ContextT<vf::NodeCtx>;
